@@ -4,6 +4,7 @@ The 657-entry colour table is abstracted: the singleton's tables are swapped IN 
 master-table ranks are symbolic distinct ints (the code only compares ranks), two of which may share one RGB definition
 (aliases such as gray/grey).  Every subset and order of real colours is covered by the rank orders of the opaque names."""
 from vf.fakes import Stub as NS
+from vf.hlib import swapped
 from rtflite.row import Utils
 from rtflite.services.color_service import color_service as svc
 import rtflite.encoding.unified_encoder as ue
@@ -143,15 +144,15 @@ def run_encode(path, used, where, raise_in_body=False, encode=True, doc=None):
         doc.df = [NS(shape=(1, 1)), NS(shape=(1, 1))]
         doc.rtf_footnote.border_bottom = [[""]]
     import rtflite.figure as figmod
-    saved = figmod.rtf_read_figure
-    figmod.rtf_read_figure = lambda paths: ([b"x"] * len(paths), ["png"] * len(paths))
+    saved = swapped((figmod.rtf_read_figure, lambda paths: ([b"x"] * len(paths), ["png"] * len(paths))))
+    saved.__enter__()
     try:
         try:
             out = me.encode(doc) if encode else "not encoded"
         except ValueError as e:
             out = "raised:" + str(e)
     finally:
-        figmod.rtf_read_figure = saved
+        saved.__exit__()
         for k, v in saved_attrs.items():
             if v is _MISSING:
                 me.__dict__.pop(k, None)
